@@ -255,8 +255,12 @@ def run_asgi_http(app, scope, events=None, fail_send_at=None, fail_exc=OSError, 
 
 
 def run_lifespan(app, fail_startup=False, stepper=None, spec_version='2.0', state_dict=None,
-                 server_like=False, log=None):
+                 server_like=False, log=None, while_running=None):
     """Send lifespan.startup then lifespan.shutdown; returns list of events the app sent + outcome.
+
+    while_running: optional callable invoked once, synchronously, in the period in which a server
+    would be serving connections (startup was answered with lifespan.startup.complete and the app
+    waits for the next lifespan event), i.e. just before lifespan.shutdown is delivered.
 
     server_like=True: behave like a real server after a failed startup - the receive channel stays
     open but lifespan.shutdown is never delivered once the app has sent lifespan.startup.failed
@@ -284,6 +288,12 @@ def run_lifespan(app, fail_startup=False, stepper=None, spec_version='2.0', stat
             park['f'] = st.loop.create_future()
             await park['f']
         if idx['i'] < len(script):
+            if while_running is not None and idx['i'] == 1 and not park.get('served') \
+                    and 'lifespan.startup.complete' in _types():
+                park['served'] = True
+                if log is not None:
+                    log.append(('serving',))
+                while_running()
             if log is not None:
                 log.append(('receive', script[idx['i']]['type']))
             ev = script[idx['i']]
